@@ -37,5 +37,7 @@ pub fn spec(tier: Tier) -> RelSpec {
 }
 
 pub fn run(tier: Tier) -> i32 {
+    // dialects with a column-exclusion facility (and one without) are judged on the column list of the statement
+    let _ = crate::relcheck::STATIC_NAME_DIALECTS.set(vec![prqlc::sql::Dialect::DuckDb, prqlc::sql::Dialect::BigQuery, prqlc::sql::Dialect::Snowflake, prqlc::sql::Dialect::Postgres]);
     relrun::run(spec(tier), tier)
 }
